@@ -752,6 +752,24 @@ def rule_gate(rep):
             "GLRParser no longer defaults lexical_disambiguation to off",
             node=gi.node,
         )
+        # ... on every path to Parser.__init__ (whose own default is on), e.g. also when a table is handed in
+        gg = func_cfg(repo, "parglare.glr.GLRParser.__init__")[1]
+        sup = [n for n in gg.nodes if n.kind == "stmt" and "super().__init__(" in unparse(n.ast)]
+        sets = [
+            n for n in gg.nodes if n.kind == "stmt" and isinstance(n.ast, ast.Assign)
+            and unparse(n.ast.targets[0]) == "kwargs['lexical_disambiguation']"
+        ]
+        r.need(sup, "GLRParser.__init__: call of Parser.__init__ not found")
+        for n in sup:
+            r.check(
+                bool(sets) and gg.dominated_by_nodes(n, sets),
+                "GLRParser passes its own lexical_disambiguation default on every path",
+                "GLRParser.__init__:default-every-path",
+                "some path through GLRParser.__init__ reaches Parser.__init__ without setting "
+                "kwargs['lexical_disambiguation']: Parser's default (on) applies, e.g. when a precomputed table is "
+                "given -- STOP then loses the longest-match comparison and GLR misses lexical alternatives / prefixes",
+                node=n.ast,
+            )
         # LRTable: flags all False when disambiguation is off
         init = repo.func("parglare.tables.LRTable.__init__")
         g2 = func_cfg(repo, "parglare.tables.LRTable.__init__")[1]
